@@ -681,7 +681,9 @@ impl<T: GseDecapMemory, C: CrcCalculator, MHEM: MandatoryHeaderExtensionManager>
 
         // check pdu buffer size
         let pdu_buffer_len = pdu_buffer.len();
-        if pdu_buffer_len + label_len + PROTOCOL_LEN + FRAG_ID_LEN + TOTAL_LENGTH_LEN < gse_len {
+        if pdu_buffer_len + label_len + header_ext_len + PROTOCOL_LEN + FRAG_ID_LEN + TOTAL_LENGTH_LEN
+            < gse_len
+        {
             self.last_label = None;
             self.memory.provision_storage(pdu_buffer).unwrap();
             return Err((DecapError::ErrorSizePduBuffer, pkt_len));
